@@ -2366,6 +2366,9 @@ class Kconfig(object):
                     # Flag that the symbol no longer exists, in
                     # case something still depends on it
                     _touch_dep_file(path, name)
+                    if self._deprecated_options:
+                        for dep_name in self._deprecated_options.get_deprecated_option(name):
+                            _touch_dep_file(path, dep_name)
 
     def _write_old_vals(self, path):
         # Helper for writing auto.conf. Basically just a simplified
